@@ -334,6 +334,7 @@ def apply_prim(it, P_, sp, dest_ty):
             return ok(Tup([sp, span(p, length=0)]))
         if it.decide(okb, 'prim'):
             nullability_cut(it, span(p + n))
+            g.log.append(('prim', '%s %r' % (k, t if isinstance(t, str) else '?')))      # literal text matched directly by this body
             return ok(Tup([span(p + n), span(p, length=n)]))
         return nom_error(it, sp)
     if k in ('is_a', 'is_not', 'alpha1', 'digit1', 'space1', 'multispace1', 'alphanumeric1', 'hex_digit1', 'take_while1', 'take_till1',
@@ -802,6 +803,26 @@ def install(mdl, production_names=None):
         c = deref(a[0])
         return Struct('CellRef', [Ref(c.fields, 0)])
     ov(r'^RefCell::<.*>::borrow(_mut)?$', borrow)
+
+    # in_directive(): whether the production was entered inside a directive is not known to a modular analysis -- when the
+    # directive stack holds nothing but the placeholder of the (unknown) caller context, both answers are explored
+    def in_directive_model(it, ci, a, d):
+        tls = it.env.get('tls') or {}
+        vec = tls['IN_DIRECTIVE'].fields[0].fields
+        base = it.env.get('dir_depth_at_entry')
+        if base is None or it.env.get('lex') is not None:
+            return len(vec) > 0
+        if len(vec) > base:
+            return True           # pushed by this production itself
+        if len(vec) < base or base == 0:
+            return len(vec) > 0
+        g = gs(it)
+        b = g.__dict__.get('entry_in_directive')
+        if b is None:
+            b = g.fresh('entered_in_directive', 'Bool')
+            g.__dict__['entry_in_directive'] = b
+        return it.decide(b, 'in_directive')
+    ov(r'^(utils::)?in_directive$', in_directive_model)
 
     def cellref_deref(it, ci, a, d):
         return deref(a[0]).fields[0]
